@@ -553,6 +553,8 @@ pub const MARKER_BASE: u64 = 0xb10c_0000;
 pub struct CfOpts {
     pub back_edges: bool,
     pub faults:     bool,
+    /// the code may end in a PUSH32 cut short whose partial immediate holds a JUMPDEST byte
+    pub trunc_tail: bool,
     pub max_blocks: usize,
 }
 
@@ -568,6 +570,10 @@ pub fn g_cf(ch: &mut Chooser, opts: &CfOpts) -> CfProg {
     let block_labels: Vec<usize> = (0..nblocks).map(|_| p.b.label()).collect();
     let data_label = p.b.label();
     let mut data_emitted = false;
+    // the code may end in a PUSH32 cut short whose partial immediate holds a JUMPDEST byte followed by
+    // a marker store: still push data, never a jump destination
+    let trunc_label = p.b.label();
+    let with_trunc = opts.trunc_tail && ch.chance(1, 5);
     for bi in 0..nblocks {
         let valid = bi == 0 || ch.chance(4, 5);
         let marker = MARKER_BASE + bi as u64;
@@ -646,7 +652,12 @@ pub fn g_cf(ch: &mut Chooser, opts: &CfOpts) -> CfProg {
             }
             6 => {
                 push_cond(&mut p);
-                p.b.push_label(data_label);
+                if with_trunc && ch.chance(1, 2) {
+                    p.b.push_label(trunc_label);
+                    p.features.push("jump:truncated-push-data");
+                } else {
+                    p.b.push_label(data_label);
+                }
                 emit_jump(&mut p, ch);
                 p.features.push(if via_jumpi { "jumpi:push-data" } else { "jump:push-data" });
             }
@@ -744,6 +755,13 @@ pub fn g_cf(ch: &mut Chooser, opts: &CfOpts) -> CfProg {
                 p.features.push("halt:unassigned");
             }
         }
+    }
+    if with_trunc {
+        p.b.emit(asm::STOP);
+        p.b.raw(vec![0x7f]);
+        p.b.ins.push(Ins::Mark(trunc_label));
+        p.b.raw(vec![0x5b, 0x60, 0x01, 0x60, (MARKER_BASE + 90) as u8, 0x55, 0x00]);
+        p.features.push("truncated-trailing-push");
     }
     p
 }
